@@ -95,6 +95,44 @@ func diffOutside(before, after map[string]snapEntry, mboxRel string) []string {
 
 const nest = "l1/l2/l3/l4/l5/l6/l7"
 
+// folderNest: a mailbox configured below directories that are named like the mailbox's own folders
+const folderNest = "out/in/sent/archive/out/l6/l7"
+
+// setupFolderSandbox creates sandbox/<folderNest>/mbox with the message mid queued in its outbox, and next to it every
+// tree that differs from the mailbox's path in one component being another folder name (with the four folders in it):
+// where a path computed by editing folder names in the whole path, instead of below the mailbox, would land.
+func setupFolderSandbox(base string, mid string) (sandbox, mbox string) {
+	sandbox, _ = os.MkdirTemp(base, "sb")
+	folders := []string{"in", "out", "sent", "archive"}
+	comps := strings.Split(folderNest, "/")
+	mk := func(root string) {
+		for _, d := range folders {
+			os.MkdirAll(filepath.Join(root, d), 0755)
+		}
+	}
+	mbox = filepath.Join(sandbox, folderNest, "mbox")
+	mk(mbox)
+	for i, c := range comps {
+		for _, f := range folders {
+			if f == c {
+				continue
+			}
+			alt := append([]string{}, comps...)
+			alt[i] = f
+			mk(filepath.Join(append(append([]string{sandbox}, alt...), "mbox")...))
+		}
+	}
+	m := fbb.NewMessage(fbb.Private, "LA1AAA")
+	m.Header.Set("Mid", mid)
+	m.AddTo("LA2BBB")
+	m.SetSubject("queued")
+	m.SetBody("a queued message\r\n")
+	b, _ := m.Bytes()
+	os.WriteFile(filepath.Join(mbox, "out", mid+".b2f"), b, 0644)
+	os.WriteFile(filepath.Join(mbox, "in", mid+".b2f"), b, 0644)
+	return
+}
+
 // setupSandbox creates sandbox/<nest>/mbox with the four folders and bait files where a lexical join of folder and
 // MID.b2f would land outside the mailbox.
 func setupSandbox(base string, mid string) (sandbox, mbox string) {
@@ -262,6 +300,10 @@ func MainConfine(args []string) int {
 	} {
 		cases = append(cases, caseT{"HDRCASE00001", true, "header", h})
 	}
+	// ordinary identifiers of messages that are in the mailbox, the mailbox lying below directories named like its folders
+	for _, s := range []string{"ORDINARY0001", "out", "sent"} {
+		cases = append(cases, caseT{s, true, "folder-named-ancestors", nil})
+	}
 	for i := 0; i < *extra; i++ {
 		n := 1 + rng.Intn(5)
 		segs := make([]string, n)
@@ -278,7 +320,7 @@ func MainConfine(args []string) int {
 	}
 	defer w.Close()
 	ops := []string{"ProcessInbound", "GetInboundAnswer", "SetDeferred", "SetSent"}
-	opsSpecial := []string{"ProcessInbound", "GetInboundAnswer", "SetDeferred", "SetSent", "ProcessInboundNoPrepare", "ProcessInboundBatch"}
+	opsSpecial := []string{"ProcessInbound", "GetInboundAnswer", "SetDeferred", "SetSent", "ProcessInboundNoPrepare", "ProcessInboundBatch", "SetSentRejected"}
 	nEsc := 0
 	for ci, c := range cases {
 		if !c.confined {
@@ -293,7 +335,12 @@ func MainConfine(args []string) int {
 			if c.confined && c.src == "plan" && (ci+oi)%3 != 0 {
 				continue
 			}
-			sandbox, mbox := setupSandbox(*tmp, c.mid)
+			var sandbox, mbox string
+			if c.src == "folder-named-ancestors" {
+				sandbox, mbox = setupFolderSandbox(*tmp, c.mid)
+			} else {
+				sandbox, mbox = setupSandbox(*tmp, c.mid)
+			}
 			mboxRel, _ := filepath.Rel(sandbox, mbox)
 			// the system temporary directory is not part of the mailbox either: point it into the watched tree
 			os.MkdirAll(filepath.Join(sandbox, "systmp"), 0755)
@@ -307,7 +354,7 @@ func MainConfine(args []string) int {
 			}
 			before := snapshot(sandbox)
 			errText, exit := "", 0
-			if op == "SetSent" {
+			if op == "SetSent" || op == "SetSentRejected" {
 				cmd := exec.Command(self, "mboxfs-c12", "--child", op, "--mbox", mbox, "--mid", c.mid)
 				if strings.ContainsRune(c.mid, 0) {
 					// a NUL cannot be passed in argv: run in-process guarded (rename fails with EINVAL -> Fatalf would kill us)
